@@ -108,6 +108,9 @@ func (b *ByteWrap[T]) UnmarshalCBORStream(r io.Reader, o DecoderOptions, flatten
 	r = io.LimitReader(r, int64(n))
 
 	if bs, ok := any(&b.Val).(*[]byte); ok {
+		if n > math.MaxInt || n >= MaxArrayDecodeLength {
+			return fmt.Errorf("byte array exceeds max size: %d", n)
+		}
 		*bs = make([]byte, n)
 		_, err := io.ReadFull(r, *bs)
 		return err
@@ -148,6 +151,9 @@ func (c *X509Certificate) UnmarshalCBORStream(r io.Reader, o DecoderOptions, fla
 	if err != nil {
 		return err
 	}
+	if n > math.MaxInt || n >= MaxArrayDecodeLength {
+		return fmt.Errorf("byte array exceeds max size: %d", n)
+	}
 
 	der := make([]byte, n)
 	if _, err := io.ReadFull(r, der); err != nil {
@@ -187,6 +193,9 @@ func (c *X509CertificateRequest) UnmarshalCBORStream(r io.Reader, o DecoderOptio
 	}
 	if err != nil {
 		return err
+	}
+	if n > math.MaxInt || n >= MaxArrayDecodeLength {
+		return fmt.Errorf("byte array exceeds max size: %d", n)
 	}
 
 	der := make([]byte, n)
